@@ -224,16 +224,34 @@ def clientOutTgtCtx (b : Boxes) : List (String × Str) :=
 
 def tarName (uid : Nat) : Str := "task.".toList ++ (toString (1000000 + uid)).toList.drop 1 ++ ".tar".toList
 
+/-- a target written in directory form (`inputs/`, `pilot:///results/`) names a directory: the helper creates
+    `dirname(target)` - that very directory - and `cp -r src dir/` / `shutil.move(src, 'dir/')` put the source into
+    it under its own name -/
+def dirForm (u : Url) : Bool := u.path.getLast? = some '/'
+
+/-- the location a directive's target denotes for the source at `s` -/
+def tloc (s : Path) (g : Url) : Path :=
+  if dirForm g then (match s.getLast? with
+                     | some b => loc g ++ [b]
+                     | none   => loc g)
+  else loc g
+
 def helperOp (action : String) (s t : Path) : Option Op :=
   if action = "Copy" ∨ action = "Transfer" then some (.copy s t)
   else if action = "Link" then some (.link s t)
   else if action = "Move" then some (.move s t)
   else none
 
+/-- the helper's operation for a completed source and target.  `os.link(src, 'dir/')` onto the directory just
+    created fails; a MOVE into a directory-form target is refused by `shutil.move` when a file of the source's
+    name is already there (that one case is not modelled, nor generated by the correspondence check) -/
+def helperOpU (action : String) (s : Path) (g : Url) : Option Op :=
+  if dirForm g ∧ action = "Link" then none else helperOp action s (tloc s g)
+
 /-- resolve one directive in the given contexts into an operation -/
 def resolveOp (srcCtx tgtCtx : List (String × Str)) (sd : SD) : Except Err Op :=
   match completeUrl srcCtx sd.source, completeUrl tgtCtx sd.target with
-  | .ok s, .ok t => match helperOp sd.action (loc s) (loc t) with
+  | .ok s, .ok t => match helperOpU sd.action (loc s) t with
                     | some op => .ok op
                     | none    => .error .assertion
   | .error e, _  => .error e
@@ -299,7 +317,7 @@ def agentInOp (t : Task) (sd : SD) : Option (Option Op) :=
     match completeUrl (agentCtx t.boxes) sd.source, completeUrl (agentCtx t.boxes) (agentTarget sd) with
     | .ok s, .ok g =>
       if g.schema ≠ "file".toList then none
-      else (match helperOp sd.action (loc s) (loc g) with
+      else (match helperOpU sd.action (loc s) g with
             | some op => some (some op)
             | none    => none)
     | _, _ => none
@@ -325,7 +343,7 @@ def agentOutOp (t : Task) (sd : SD) : Option Op :=
   | .ok s, .ok g =>
     if s.schema ≠ "file".toList then none
     else if g.schema ≠ "file".toList then none
-    else helperOp sd.action (loc s) (loc g)
+    else helperOpU sd.action (loc s) g
   | _, _ => none
 
 /-- one directive in the loop of the agent side output stager: once a directive could not be carried out
